@@ -35,8 +35,26 @@ def tau_of(fam, theta):
 
 
 def make(fam, theta):
+    """a copula of the family with the given parameter.  Every second parameter value (a fixed function of the value) is carried by
+    an instance with a past: it held another parameter and answered every kind of query with it before it was given this one -
+    the laws speak of the parameter the object has now"""
     import copulas.bivariate as cb
     m = getattr(cb, fam)()
+    if int(abs(float(theta)) * 7919) % 2:
+        other = {'Clayton': 2.5, 'Gumbel': 3.0, 'Frank': -4.0 if theta > 0 else 6.0}[fam]
+        m.theta = other
+        m.tau = float(tau_of(fam, other))
+        pts = np.array([[0.3, 0.6], [0.8, 0.1], [0.5, 0.5]])
+        st = np.random.get_state()
+        try:
+            for f in (m.cumulative_distribution, m.probability_density, m.partial_derivative, m.log_probability_density):
+                f(pts.copy())
+            m.percent_point(np.array([0.4, 0.7]), np.array([0.2, 0.9]))
+            m.sample(3)
+        except Exception:
+            pass
+        finally:
+            np.random.set_state(st)
     m.theta = float(theta)
     m.tau = float(tau_of(fam, theta))
     return m
